@@ -83,7 +83,10 @@ OnTrack ==
         /\ evp' = IF full THEN evp \cup {ev} ELSE evp
         /\ conn' = [c \in 0..63 |->
                       IF c = pend THEN [conn[c] EXCEPT !.id = Ev.id, !.st = IF sc.variant = "tcp" THEN "served" ELSE "handshake"]
-                      ELSE IF full /\ conn[c].id = ev THEN [conn[c] EXCEPT !.st = "evicted"]
+                      \* (a session whose peer does not read its replies is parked in a write: it takes notice of its
+                      \* eviction only when that write completes, and works through its backlog until then)
+                      ELSE IF full /\ conn[c].id = ev
+                           THEN [conn[c] EXCEPT !.st = IF conn[c].st = "flooding" THEN "flooding" ELSE "evicted"]
                       ELSE conn[c]]
   /\ nextId' = nextId + 1
   /\ UNCHANGED <<sc, up, pend, db, exp, cur>> /\ Step
